@@ -25,6 +25,7 @@
  *   ctx <c> heap|heapz|static <size>      create (heap: allocator returns garbage-filled memory; heapz: zeroed)
  *   free <c>
  *   set <c> <param> <value>               ZSTD_CCtx_setParameter
+ *   setp <c> <n> (<param> <value>)*n      the same through ZSTD_CCtx_params + ZSTD_CCtx_setParametersUsingCCtxParams
  *   reset <c> <1|2|3>                     ZSTD_CCtx_reset
  *   pledge <c> <n>
  *   prefix <c> <off> <len>                ZSTD_CCtx_refPrefix (raw content)
@@ -46,7 +47,8 @@
  *                                         right after Begin into context <copyTo>, which then does the work)
  *       blcdict <chunk> <d>               ZSTD_compressBegin_usingCDict / Continue / End
  *   A <c> <off> <len> <flush>             abandoned frame: stream <len> bytes (then flush if 1), never end
- * Output: "F fid rc size hash rt nerr sc [hex]"  (sc: 1 = e_end shortcut taken, -1 = buffered path, -2 = not a streaming frame)  (rc 0 ok, else "E <errorname>"), D / J lines, "E ..." for API errors.
+ *   P lines (trace on, streaming frames): after every input piece "P ctx piece consumedSrcSize inBuffPos inToCompress inBuffTarget streamStage"
+ * Output: "F fid rc size hash rt nerr sc nblocks lastBlockEmpty [hex]"  (sc: 1 = e_end shortcut taken, -1 = buffered path, -2 = not a streaming frame)  (rc 0 ok, else "E <errorname>"), D / J lines, "E ..." for API errors.
  */
 #define ZSTD_DEPS_NEED_MALLOC
 #include "compress/zstd_compress.c"
@@ -117,6 +119,8 @@ static ZSTD_DCtx* dctx;
 static BYTE* blob; static size_t blobSize;
 static BYTE *srcArena, *dstArena, *rtBuf, *pieceBuf; static size_t arenaCap;
 static int g_trace = 0;
+static int g_cdhint = -1;   /* does the frame being started use a CDict: -1 = read the sticky fields of the context, 0 / 1 = known from the API */
+static const ZSTD_CDict* g_cdptr = NULL;   /* the CDict when g_cdhint == 1 */
 /* decoding side: what the frame was compressed with */
 static size_t curDictOff, curDictLen; static int curDictKind; /* 0 none, 1 raw/auto content (prefix, dict) */
 static size_t stickyOff[NCTX], stickyLen[NCTX]; static int stickyKind[NCTX];
@@ -177,6 +181,37 @@ static void dump(int ci, const char* why) {
                (long long)(ms->window.nextSrc - ms->window.base), ms->window.lowLimit, ms->window.dictLimit, ms->nextToUpdate,
                ms->loadedDictEnd, ms->dictMatchState != NULL, (ull)ms->hashSalt, ms->hashSaltEntropy, ms->opt.litLengthSum);
         printf(" tb=%llu reach=%llu nz=%llu need=%zu pledged=%lld", tb, reach, nz, need, (long long)pledged);
+        /* block state (ZSTD_reset_compressedBlockState), streaming buffer state, LDM state */
+        if (c->blockState.prevCBlock != NULL) {
+            const ZSTD_compressedBlockState_t* const bs = c->blockState.prevCBlock;
+            printf(" rep0=%u rep1=%u rep2=%u hr=%d ofr=%d mlr=%d llr=%d", bs->rep[0], bs->rep[1], bs->rep[2], (int)bs->entropy.huf.repeatMode,
+                   (int)bs->entropy.fse.offcode_repeatMode, (int)bs->entropy.fse.matchlength_repeatMode, (int)bs->entropy.fse.litlength_repeatMode);
+        }
+        {   /* the CDict this frame was started with (sticky API: refCDict or the CDict made from a loaded dictionary) */
+            const ZSTD_CDict* const cd = g_cdhint >= 0 ? (g_cdhint ? g_cdptr : NULL) : (c->cdict ? c->cdict : c->localDict.cdict);
+            printf(" cd=%d", cd != NULL);
+            if (cd != NULL) {
+                const ZSTD_compressionParameters* const q = &cd->matchState.cParams; const ZSTD_compressionParameters* const a = &ap->cParams;
+                int const same = q->strategy == a->strategy && q->hashLog == a->hashLog && q->chainLog == a->chainLog
+                              && q->searchLog == a->searchLog && q->minMatch == a->minMatch && q->targetLength == a->targetLength
+                              && cd->useRowMatchFinder == ap->useRowMatchFinder;
+                printf(" cdsz=%zu cdlvl=%d cdstrat=%d cddds=%d cdrow=%d cdsame=%d adp=%d fw=%d", cd->dictContentSize, cd->compressionLevel,
+                       (int)q->strategy, cd->matchState.dedicatedDictSearch, ZSTD_rowMatchFinderUsed(q->strategy, cd->useRowMatchFinder), same,
+                       (int)ap->attachDictPref, ap->forceWindow);
+            }
+        }
+        printf(" bs=%zu ibs=%zu ipos=%zu itoc=%zu itgt=%zu cons=%llu sst=%d fe=%u", c->blockSize, c->inBuffSize, c->inBuffPos, c->inToCompress,
+               c->inBuffTarget, (ull)c->consumedSrcSize, (int)c->streamStage, c->frameEnded);
+        if (ap->nbWorkers == 0 && ap->ldmParams.enableLdm == ZSTD_ps_enable && c->ldmState.hashTable != NULL) {
+            size_t const hb = ((size_t)1 << ap->ldmParams.hashLog) * sizeof(ldmEntry_t);
+            size_t const nb = (size_t)1 << (ap->ldmParams.hashLog - ap->ldmParams.bucketSizeLog);
+            const BYTE* const h = (const BYTE*)c->ldmState.hashTable; const BYTE* const bo = c->ldmState.bucketOffsets;
+            ull nzl = 0; size_t i;
+            for (i = 0; i < hb; i++) nzl += (h[i] != 0);
+            if (bo) for (i = 0; i < nb; i++) nzl += (bo[i] != 0);
+            printf(" ldmnz=%llu ldmidx=%lld ldmll=%u ldmdl=%u ldmlde=%u", nzl, (long long)(c->ldmState.window.nextSrc - c->ldmState.window.base),
+                   c->ldmState.window.lowLimit, c->ldmState.window.dictLimit, c->ldmState.loadedDictEnd);
+        }
     }
     printf(" ws=%llu wsz=%zu oe=%zu te=%zu tve=%zu as=%zu ios=%zu ph=%d af=%d osd=%d",
            (ull)(size_t)ws->workspace, (size_t)((BYTE*)ws->workspaceEnd - (BYTE*)ws->workspace),
@@ -221,6 +256,17 @@ static void note_shortcut(int ci, size_t len) {
 static void report(int fid, size_t r, const BYTE* dst, const BYTE* src, size_t len, int hex) {
     if (ZSTD_isError(r)) { printf("F %d E %s %d\n", fid, ZSTD_getErrorName(r), g_nerr); g_nerr = 0; g_sc = -2; return; }
     printf("F %d 0 %zu %016llx %d %d %lld", fid, r, (ull)XXH64(dst, r, 0), decode_ok(dst, r, src, len), g_nerr, g_sc);
+    {   /* walk the block headers: number of blocks, is the last block an empty raw block */
+        size_t const h = ZSTD_frameHeaderSize(dst, r); size_t pos = h; int nb = 0, lastEmpty = -1;
+        if (!ZSTD_isError(h)) {
+            while (pos + 3 <= r) {
+                U32 const bh = MEM_readLE24(dst + pos); U32 const last = bh & 1, type = (bh >> 1) & 3, sz = bh >> 3;
+                nb++; pos += 3 + (type == 1 ? 1 : sz);
+                if (last) { lastEmpty = (type == 0 && sz == 0); break; }
+            }
+        }
+        printf(" %d %d", nb, lastEmpty);
+    }
     g_nerr = 0; g_sc = -2;
     if (hex) { size_t i; printf(" "); for (i = 0; i < r; i++) printf("%02x", dst[i]); }
     printf("\n");
@@ -273,6 +319,7 @@ static size_t do_stream(int ci, const BYTE* src, size_t len, BYTE* dst, size_t d
             if (opos == dstCap && out.pos == 0 && cap == 0) return ERROR(dstSize_tooSmall);
         }
         ipos += sz;
+        if (g_trace && dumpFirst) printf("P %d %d %llu %zu %zu %zu %d\n", ci, p, (ull)c->consumedSrcSize, c->inBuffPos, c->inToCompress, c->inBuffTarget, (int)c->streamStage);
         if (p == nP || p == nP - 1 || dir == ZSTD_e_end) note_shortcut(ci, len);
     }
     return opos;
@@ -285,6 +332,11 @@ int main(void) {
     dctx = ZSTD_createDCtx();
     for (i = 0; i < NCTX; i++) refCD[i] = -1;
     setvbuf(stdout, NULL, _IOLBF, 1 << 16);
+    {   /* constants local to zstd_compress.c that coq/Det/DictMode.v hard-codes */
+        int k; printf("K %llu %llu", (ull)ZSTD_USE_CDICT_PARAMS_SRCSIZE_CUTOFF, (ull)ZSTD_USE_CDICT_PARAMS_DICTSIZE_MULTIPLIER);
+        for (k = 0; k <= ZSTD_STRATEGY_MAX; k++) printf(" %zu", attachDictSizeCutoffs[k]);
+        printf(" %d %d %d %d\n", (int)ZSTD_dictDefaultAttach, (int)ZSTD_dictForceAttach, (int)ZSTD_dictForceCopy, (int)ZSTD_dictForceLoad);
+    }
     while (fscanf(in, "%63s", cmd) == 1) {
         if (!strcmp(cmd, "blobfile")) {
             char path[1024]; FILE* f; long n;
@@ -315,6 +367,17 @@ int main(void) {
         } else if (!strcmp(cmd, "set")) {
             int c, p, v; size_t r; if (fscanf(in, "%d %d %d", &c, &p, &v) != 3) return 2;
             r = ZSTD_CCtx_setParameter(C[c], (ZSTD_cParameter)p, v); if (ZSTD_isError(r)) perr("set", r);
+        } else if (!strcmp(cmd, "setp")) {
+            /* the same parameters through a ZSTD_CCtx_params object: ZSTD_CCtxParams_setParameter xN + ZSTD_CCtx_setParametersUsingCCtxParams */
+            int c, n, k; size_t r; ZSTD_CCtx_params* pp;
+            if (fscanf(in, "%d %d", &c, &n) != 2) return 2;
+            pp = ZSTD_createCCtxParams();
+            for (k = 0; k < n; k++) {
+                int p, v; if (fscanf(in, "%d %d", &p, &v) != 2) return 2;
+                r = ZSTD_CCtxParams_setParameter(pp, (ZSTD_cParameter)p, v); if (ZSTD_isError(r)) perr("set", r);
+            }
+            r = ZSTD_CCtx_setParametersUsingCCtxParams(C[c], pp); if (ZSTD_isError(r)) perr("setp-apply", r);
+            ZSTD_freeCCtxParams(pp);
         } else if (!strcmp(cmd, "reset")) {
             int c, k; size_t r; if (fscanf(in, "%d %d", &c, &k) != 2) return 2;
             r = ZSTD_CCtx_reset(C[c], (ZSTD_ResetDirective)k); if (ZSTD_isError(r)) perr("reset", r);
@@ -333,7 +396,7 @@ int main(void) {
             if (ZSTD_isError(r)) perr("load", r); else { stickyKind[c] = l > 0; stickyOff[c] = o; stickyLen[c] = l; refCD[c] = -1; }
         } else if (!strcmp(cmd, "cdict")) {
             int d, level, byRef, type; size_t o, l; if (fscanf(in, "%d %zu %zu %d %d %d", &d, &o, &l, &level, &byRef, &type) != 6) return 2;
-            if (CD[d]) ZSTD_freeCDict(CD[d]);
+            /* the previous CDict of this slot is not freed: a context may still reference it (ZSTD_CCtx_refCDict is sticky) and dump() reads it */
             CD[d] = ZSTD_createCDict_advanced(blob + o, l, byRef ? ZSTD_dlm_byRef : ZSTD_dlm_byCopy, (ZSTD_dictContentType_e)type,
                                               ZSTD_getCParams(level, ZSTD_CONTENTSIZE_UNKNOWN, l), gmem);
             CDoff[d] = o; CDlen[d] = l;
@@ -341,7 +404,7 @@ int main(void) {
         } else if (!strcmp(cmd, "cdict2")) {
             int d, wl, cl, hl, sl, mm, tl, st, dds; size_t o, l; ZSTD_CCtx_params* pp; ZSTD_compressionParameters cp;
             if (fscanf(in, "%d %zu %zu %d %d %d %d %d %d %d %d", &d, &o, &l, &wl, &cl, &hl, &sl, &mm, &tl, &st, &dds) != 11) return 2;
-            if (CD[d]) ZSTD_freeCDict(CD[d]);
+            /* the previous CDict of this slot is not freed: a context may still reference it (ZSTD_CCtx_refCDict is sticky) and dump() reads it */
             cp.windowLog = wl; cp.chainLog = cl; cp.hashLog = hl; cp.searchLog = sl; cp.minMatch = mm; cp.targetLength = tl; cp.strategy = (ZSTD_strategy)st;
             pp = ZSTD_createCCtxParams(); ZSTD_CCtxParams_init(pp, 0); pp->cParams = cp; pp->enableDedicatedDictSearch = dds;
             CD[d] = ZSTD_createCDict_advanced2(blob + o, l, ZSTD_dlm_byRef, ZSTD_dct_auto, pp, gmem);
@@ -413,7 +476,9 @@ int main(void) {
                     curDictKind = 2; curDictOff = CDoff[d]; curDictLen = CDlen[d];
                     r = ZSTD_compressBegin_usingCDict(C[c], CD[d]);
                 }
+                g_cdhint = !strcmp(api, "blcdict"); g_cdptr = g_cdhint ? CD[d] : NULL;
                 dump(c, ZSTD_isError(r) ? "beginfail" : "begin");
+                g_cdhint = -1; g_cdptr = NULL;
                 if (!ZSTD_isError(r) && copyTo >= 0) {
                     r = ZSTD_copyCCtx(C[copyTo], C[c], pledge ? len : ZSTD_CONTENTSIZE_UNKNOWN);
                     dump(copyTo, "copied");
